@@ -357,6 +357,16 @@ def mutants(decls, rng):
                 dup = els[rng.randrange(k)][0]
                 nd.lines[2 + k] = "    %s : %s;" % (dup.upper() if rng.random() < 0.5 else dup, els[k][1])
                 out.append(("P0003", "structure element %d renamed to earlier element %s" % (k, dup), with_decl(i, nd)))
+            if len(els) >= 3:
+                # one name used three times, in different letter cases: two diagnostics, both naming the first use
+                j = rng.randrange(len(els) - 2)
+                k1 = rng.randrange(j + 1, len(els) - 1)
+                k2 = rng.randrange(k1 + 1, len(els))
+                dup = els[j][0]
+                nd = d.copy()
+                nd.lines[2 + k1] = "    %s : %s;" % (dup.upper(), els[k1][1])
+                nd.lines[2 + k2] = "    %s : %s;" % (dup.capitalize() if rng.random() < 0.5 else dup, els[k2][1])
+                out.append(("P0003", "structure elements %d and %d renamed to earlier element %s" % (k1, k2, dup), with_decl(i, nd)))
         if d.kind == "type" and d.info.get("tkind") == "subrange":
             lo = d.info["lo"]
             for hi in (lo, lo - 1, lo - 100):
